@@ -42,6 +42,11 @@ class Soup(object):
       return '%s[%s]' % (self.rd(), self.expr(d + 1))
     if r < 0.82:
       return '%s(%s, k=%s)' % (self.rd(), self.expr(d + 1), self.expr(d + 1))
+    if r < 0.86:
+      # f-string whose format spec contains replacement fields of its own; walrus inside call arguments
+      if self.rng.random() < 0.5:
+        return "f'{%s:{%s}.{%s}}|{%s!r:>{%s}}'" % (self.rd(), self.rd(), self.rd(), self.rd(), self.rd())
+      return '%s((%s := %s), k=%s)' % (self.rd(), self.fresh('wl'), self.expr(d + 1), self.rd())
     if r < 0.9:
       p = self.fresh('lp')
       return '(lambda %s, %s=%s: %s + %s)' % (p, self.fresh('lq'), self.rd(), p, self.rd())
